@@ -32,6 +32,9 @@ type driver struct {
 	names  map[string]string
 	lines  int
 	faults int
+	// tracked: since the last synchronisation point every cluster edit was handled by the manager (no lost event, no
+	// namespace relabel -- which has no handler --, no injected failure)
+	tracked bool
 }
 
 var (
@@ -89,6 +92,22 @@ func (d *driver) randRule() env.PRule {
 	for i := d.rng.Intn(3); i > 0; i-- {
 		r.Peers = append(r.Peers, d.randPeer())
 	}
+	// not generated: one network both allowed by an ipBlock peer and excepted by another peer of the same rule (what the
+	// shared hash:net set then holds depends on how `ipset add -exist` treats the flags of an existing element)
+	allowed, excepted := map[string]bool{}, map[string]bool{}
+	for _, p := range r.Peers {
+		if p.Block != "" {
+			allowed[p.Block] = true
+		}
+		for _, e := range p.Except {
+			excepted[e] = true
+		}
+	}
+	for b := range allowed {
+		if excepted[b] {
+			return d.randRule()
+		}
+	}
 	return r
 }
 
@@ -143,6 +162,17 @@ func (d *driver) randCluster() env.Cluster {
 }
 
 func (d *driver) emit(e M) {
+	switch e["ev"] {
+	case "FullSync":
+		d.tracked = e["fault"] != true
+	case "AddPolicy", "UpdatePolicy", "DeletePolicy":
+		d.tracked = e["handled"] == true
+	case "Reset", "Down", "Restart", "RelabelNamespace":
+		d.tracked = false
+	default:
+		d.tracked = d.tracked && e["handled"] == true
+	}
+	e["tracked"] = d.tracked
 	e["cluster"] = d.c
 	a := d.k.Abstract(d.names)
 	e["sets"], e["chains"] = a.Sets, a.Chains
@@ -255,9 +285,7 @@ func (d *driver) edit(lost bool) {
 		}
 		if cur == nil {
 			p := d.randPod(i)
-			if d.rng.Intn(2) == 0 {
-				p.IP = "" // created first, address later
-			}
+			p.IP = "" // a pod is created without an address; the address arrives with an update
 			c.Pods[p.Name+"_"+p.Ns] = p
 			d.api.Load(*c)
 			if handled {
